@@ -40,14 +40,14 @@ class CMADeme(AbstractDeme):
     def run_metaepoch(self, tree) -> None:
         epoch_counter = 0
         genomes = [ind.genome for ind in self.current_population]
-        values = [ind.fitness for ind in self.current_population]
+        values = self._cma_values(self.current_population)
         metaepoch_generations = []
         while epoch_counter < self.generations:
             self._cma_es.tell(genomes, values)
             offspring = [Individual(solution, problem=self._problem) for solution in self._cma_es.ask()]
             Individual.evaluate_population(offspring)
             genomes = [ind.genome for ind in offspring]
-            values = [ind.fitness for ind in offspring]
+            values = self._cma_values(offspring)
             epoch_counter += 1
             metaepoch_generations.append(offspring)
             if (gsc_value := tree._gsc(tree)) or self._cma_es.stop():
@@ -63,6 +63,12 @@ class CMADeme(AbstractDeme):
         if self._lsc(self) or self._cma_es.stop():
             self.log("CMA Deme finished due to LSC")
             self._active = False
+
+    def _cma_values(self, population: list[Individual]) -> list[float]:
+        # CMA-ES always minimises: a maximisation problem has to be told the negated fitness.
+        if self._problem.maximize:
+            return [-ind.fitness for ind in population]
+        return [ind.fitness for ind in population]
 
     @property
     def mean(self) -> np.ndarray:
